@@ -561,7 +561,10 @@ impl LocalIdRegistry {
         {
             if let Some(packet_number) = context.write_frame(&frame::NewConnectionId {
                 sequence_number: id_info.sequence_number.into(),
-                retire_prior_to: self.retire_prior_to.into(),
+                // A connection ID can outlive a later one, so `retire_prior_to` may have moved past
+                // the sequence number of the ID being (re)announced. The field must not exceed the
+                // sequence number of the frame that carries it.
+                retire_prior_to: self.retire_prior_to.min(id_info.sequence_number).into(),
                 connection_id: id_info.id.as_bytes(),
                 stateless_reset_token: id_info
                     .stateless_reset_token
